@@ -265,6 +265,207 @@ def cond_dnf(test, subst):
     raise Undecided("test shape %s" % type(test).__name__)
 
 
+# ------------------------------------------------------------------ constants: table-driven ladders
+# A ladder may be written as a loop over a constant table (`for itemsize in (1, 2, 4, 8)`, module-level tuples of
+# (threshold, dtype) rungs) with thresholds computed from the loop variable (2 ** (8 * itemsize), numpy.iinfo(...)).
+# Such a loop is UNROLLED here: the table is evaluated as a constant (literals, arithmetic, tuples, comprehensions over
+# constant tuples, "%s%d" % (...), numpy.iinfo(T).min/max, numpy.dtype(T)), never by running catii.
+class _NC:
+    """not a constant"""
+
+
+NOTCONST = _NC()
+
+
+class DT(str):
+    """a dtype constant, by canonical name ('uint16')"""
+
+
+class IINFO:
+    def __init__(self, name):
+        self.name = name
+
+
+def _dt_of(v):
+    if isinstance(v, DT):
+        return v
+    if isinstance(v, str):
+        n = dtype_name(ast.Constant(v))
+        return DT(n) if n else None
+    return None
+
+
+def ceval(e, cenv, modc, depth=0):
+    """Value of a constant expression, or NOTCONST."""
+    if depth > 40:
+        return NOTCONST
+    ev = lambda x: ceval(x, cenv, modc, depth + 1)
+    if isinstance(e, ast.Constant):
+        return e.value if isinstance(e.value, (int, str)) and not isinstance(e.value, bool) else NOTCONST
+    if isinstance(e, ast.Name):
+        if e.id in cenv:
+            return cenv[e.id]
+        if e.id in modc:
+            v = modc[e.id]
+            if isinstance(v, ast.AST):
+                modc[e.id] = NOTCONST  # cycle guard
+                v = ceval(v, {}, modc, depth + 1)
+                modc[e.id] = v
+            return v
+        return NOTCONST
+    if isinstance(e, (ast.Tuple, ast.List)):
+        vs = [ev(x) for x in e.elts]
+        return NOTCONST if any(v is NOTCONST for v in vs) else tuple(vs)
+    if isinstance(e, ast.UnaryOp) and isinstance(e.op, (ast.USub, ast.UAdd)):
+        v = ev(e.operand)
+        return NOTCONST if not isinstance(v, int) else (-v if isinstance(e.op, ast.USub) else v)
+    if isinstance(e, ast.BinOp):
+        a, b = ev(e.left), ev(e.right)
+        if a is NOTCONST or b is NOTCONST:
+            return NOTCONST
+        try:
+            if isinstance(e.op, ast.Mod) and isinstance(a, str):
+                return a % b
+            if isinstance(e.op, ast.Add) and isinstance(a, (str, tuple)) and type(a) is type(b):
+                return a + b
+            if not (isinstance(a, int) and isinstance(b, int)):
+                return NOTCONST
+            if isinstance(e.op, ast.Add):
+                return a + b
+            if isinstance(e.op, ast.Sub):
+                return a - b
+            if isinstance(e.op, ast.Mult):
+                return a * b
+            if isinstance(e.op, ast.Pow) and 0 <= b <= 256:
+                return a ** b
+            if isinstance(e.op, ast.LShift) and 0 <= b <= 256:
+                return a << b
+            if isinstance(e.op, ast.FloorDiv) and b:
+                return a // b
+            if isinstance(e.op, ast.Mod) and b:
+                return a % b
+        except Exception:
+            return NOTCONST
+        return NOTCONST
+    if isinstance(e, ast.Attribute):
+        if isinstance(e.value, ast.Name) and e.value.id in ("numpy", "np"):
+            n = ALIASES.get(e.attr, e.attr)
+            return DT(n) if n in RANGES else NOTCONST
+        v = ev(e.value)
+        if isinstance(v, IINFO) and e.attr in ("min", "max"):
+            return RANGES[v.name][0 if e.attr == "min" else 1]
+        if isinstance(v, DT) and e.attr == "itemsize":
+            return {"8": 1, "16": 2, "32": 4, "64": 8}[v.lstrip("uint")]
+        return NOTCONST
+    if isinstance(e, ast.Subscript):
+        v, i = ev(e.value), ev(e.slice)
+        if isinstance(v, (tuple, str)) and isinstance(i, int) and -len(v) <= i < len(v):
+            return v[i]
+        return NOTCONST
+    if isinstance(e, ast.Call) and not e.keywords:
+        f = e.func
+        if isinstance(f, ast.Attribute) and isinstance(f.value, ast.Name) and f.value.id in ("numpy", "np") and len(e.args) == 1:
+            a = ev(e.args[0])
+            d = _dt_of(a)
+            if f.attr == "dtype" and d is not None:
+                return d
+            if f.attr == "iinfo" and d is not None:
+                return IINFO(d)
+            return NOTCONST
+        if isinstance(f, ast.Name) and f.id in ("tuple", "list") and len(e.args) == 1:
+            return ev(e.args[0])
+        if isinstance(f, ast.Name) and f.id in ("reversed", "sorted") and len(e.args) == 1:
+            v = ev(e.args[0])
+            if isinstance(v, tuple) and (f.id == "reversed" or all(isinstance(x, int) for x in v)):
+                return tuple(reversed(v)) if f.id == "reversed" else tuple(sorted(v))
+            return NOTCONST
+        if isinstance(f, ast.Name) and f.id == "range" and 1 <= len(e.args) <= 3:
+            vs = [ev(a) for a in e.args]
+            if all(isinstance(v, int) for v in vs) and len(range(*vs)) <= 64:
+                return tuple(range(*vs))
+            return NOTCONST
+        if isinstance(f, ast.Name) and f.id in ("int", "str") and len(e.args) == 1:
+            v = ev(e.args[0])
+            return v if isinstance(v, int if f.id == "int" else str) else NOTCONST
+        return NOTCONST
+    if isinstance(e, (ast.GeneratorExp, ast.ListComp)) and len(e.generators) == 1 and not e.generators[0].ifs:
+        g = e.generators[0]
+        it = ev(g.iter)
+        if not isinstance(it, tuple):
+            return NOTCONST
+        out = []
+        for item in it:
+            env2 = dict(cenv)
+            if not _bind_const(g.target, item, env2):
+                return NOTCONST
+            v = ceval(e.elt, env2, modc, depth + 1)
+            if v is NOTCONST:
+                return NOTCONST
+            out.append(v)
+        return tuple(out)
+    if isinstance(e, ast.IfExp):
+        t = ev(e.test)
+        if isinstance(t, int):
+            return ev(e.body if t else e.orelse)
+    return NOTCONST
+
+
+def _bind_const(target, value, env):
+    if isinstance(target, ast.Name):
+        env[target.id] = value
+        return True
+    if isinstance(target, (ast.Tuple, ast.List)) and isinstance(value, tuple) and len(value) == len(target.elts):
+        return all(_bind_const(t, v, env) for t, v in zip(target.elts, value))
+    return False
+
+
+def _const_node(v):
+    if isinstance(v, DT):
+        return ast.Attribute(value=ast.Name(id="numpy", ctx=ast.Load()), attr=str(v), ctx=ast.Load())
+    if isinstance(v, (int, str)) and not isinstance(v, bool):
+        return ast.Constant(v)
+    return None
+
+
+class _Subst(ast.NodeTransformer):
+    """Replace every constant sub-expression (under the constant environment) by its value."""
+
+    def __init__(self, cenv, modc, keep):
+        self.cenv, self.modc, self.keep = cenv, modc, keep
+
+    def generic_visit(self, node):
+        if isinstance(node, ast.expr) and not isinstance(node, ast.Constant):
+            if not (isinstance(node, ast.Name) and node.id in self.keep):
+                v = ceval(node, self.cenv, self.modc)
+                if v is not NOTCONST:
+                    n = _const_node(v)
+                    if n is not None:
+                        return ast.copy_location(n, node)
+        return super().generic_visit(node)
+
+    visit_Name = generic_visit
+    visit_Attribute = generic_visit
+    visit_Call = generic_visit
+    visit_BinOp = generic_visit
+    visit_Subscript = generic_visit
+
+
+def csubst(node, cenv, modc, keep=()):
+    import copy
+
+    return ast.fix_missing_locations(_Subst(cenv, modc, set(keep)).visit(copy.deepcopy(node)))
+
+
+class _Iter:
+    def __init__(self, node, items, i):
+        self.node, self.items, self.i = node, items, i
+
+
+class _End:
+    def __init__(self, node):
+        self.node = node
+
+
 class Leaf:
     def __init__(self, box, subst, dtype, trace, node):
         self.box = box
@@ -274,8 +475,13 @@ class Leaf:
         self.node = node
 
 
-def enumerate_paths(fn):
+def enumerate_paths(fn, module_ast=None):
     """All paths of the ladder. Raises Undecided on anything outside the recognised subset."""
+    modc = {}
+    if module_ast is not None:
+        for st in module_ast.body:
+            if isinstance(st, ast.Assign) and len(st.targets) == 1 and isinstance(st.targets[0], ast.Name):
+                modc[st.targets[0].id] = st.value
     params = [a.arg for a in fn.args.args]
     if len(params) != 2:
         raise Undecided("fit_dtype no longer takes (maxval, minval)")
@@ -283,15 +489,74 @@ def enumerate_paths(fn):
     leaves = []
     fallthrough = []
 
-    def run(stmts, box, subst, dvars, trace):
+    budget = [4000]
+
+    def run(stmts, box, subst, dvars, trace, cenv=None):
+        cenv = cenv or {}
+        budget[0] -= 1
+        if budget[0] < 0:
+            raise Undecided("too many paths after unrolling the constant loops")
         if not stmts:
             fallthrough.append((box, trace))
             return
         s, rest = stmts[0], stmts[1:]
+        # ---- unrolled constant loops
+        if isinstance(s, _End):
+            return run(rest, box, subst, dvars, trace, cenv)
+        if isinstance(s, _Iter):
+            if s.i >= len(s.items):
+                return run(rest, box, subst, dvars, trace, cenv)
+            env2 = dict(cenv)
+            if not _bind_const(s.node.target, s.items[s.i], env2):
+                raise Undecided("loop target does not match the table's rows at line %d" % s.node.lineno)
+            return run(list(s.node.body) + [_Iter(s.node, s.items, s.i + 1)] + rest, box, subst, dvars, trace, env2)
+        if isinstance(s, ast.For):
+            items = ceval(s.iter, cenv, modc)
+            if not isinstance(items, tuple) or s.orelse or len(items) > 64:
+                raise Undecided("loop over something that is not a constant table: %s" % norm_src(s.iter)[:60])
+            return run([_Iter(s, items, 0), _End(s)] + rest, box, subst, dvars, trace, cenv)
+        if isinstance(s, ast.Break):
+            k = 0
+            while k < len(rest) and not isinstance(rest[k], _End):
+                k += 1
+            if k == len(rest):
+                raise Undecided("break outside an unrolled loop")
+            return run(rest[k + 1:], box, subst, dvars, trace, cenv)
+        if isinstance(s, ast.Continue):
+            k = 0
+            while k < len(rest) and not isinstance(rest[k], _Iter):
+                k += 1
+            if k == len(rest):
+                raise Undecided("continue outside an unrolled loop")
+            return run(rest[k:], box, subst, dvars, trace, cenv)
+        if cenv or modc:
+            # constants (loop variables, table rows, module-level tables) are replaced by their values before the statement is read
+            if isinstance(s, ast.If):
+                s2 = ast.If(test=csubst(s.test, cenv, modc, keep=subst), body=s.body, orelse=s.orelse)
+                s = ast.copy_location(s2, s)
+            elif isinstance(s, (ast.Assign, ast.Return)) and s.value is not None:
+                s = ast.copy_location(type(s)(**dict(ast.iter_fields(s), value=csubst(s.value, cenv, modc, keep=subst))), s)
+        if isinstance(s, ast.Assign) and len(s.targets) == 1 and isinstance(s.targets[0], ast.Tuple) and isinstance(s.value, ast.Tuple) and len(s.targets[0].elts) == len(s.value.elts) \
+                and all(isinstance(t, ast.Name) for t in s.targets[0].elts):
+            # a, b = x, y with independent right-hand sides: two assignments
+            names = {t.id for t in s.targets[0].elts}
+            if not any(isinstance(n, ast.Name) and n.id in names for v in s.value.elts for n in ast.walk(v)):
+                parts = [ast.copy_location(ast.Assign(targets=[t], value=v), s) for t, v in zip(s.targets[0].elts, s.value.elts)]
+                return run(parts + rest, box, subst, dvars, trace, cenv)
+        if isinstance(s, ast.Assign) and len(s.targets) == 1 and isinstance(s.targets[0], ast.Name) and isinstance(s.value, ast.IfExp):
+            # x = a if c else b  ->  if c: x = a  else: x = b
+            mk = lambda v: ast.copy_location(ast.Assign(targets=s.targets, value=v), s)
+            return run([ast.copy_location(ast.If(test=s.value.test, body=[mk(s.value.body)], orelse=[mk(s.value.orelse)]), s)] + rest, box, subst, dvars, trace, cenv)
+        if isinstance(s, ast.Assign) and len(s.targets) == 1 and isinstance(s.targets[0], ast.Name) and s.targets[0].id not in (pmax, pmin):
+            v = ceval(s.value, cenv, modc)
+            if v is not NOTCONST and not isinstance(v, DT):
+                env2 = dict(cenv)
+                env2[s.targets[0].id] = v
+                return run(rest, box, subst, dvars, trace, env2)
         if isinstance(s, ast.Expr) and isinstance(s.value, ast.Constant):
-            return run(rest, box, subst, dvars, trace)
+            return run(rest, box, subst, dvars, trace, cenv)
         if isinstance(s, ast.Pass):
-            return run(rest, box, subst, dvars, trace)
+            return run(rest, box, subst, dvars, trace, cenv)
         if isinstance(s, ast.If):
             t, f = cond_dnf(s.test, subst)
             src = norm_src(s.test)
@@ -300,36 +565,36 @@ def enumerate_paths(fn):
                 for var, lo, hi in conj:
                     b = b.meet(var, lo, hi)
                 if not b.empty():
-                    run(list(s.body) + rest, b, subst, dvars, trace + [(src, True)])
+                    run(list(s.body) + rest, b, subst, dvars, trace + [(src, True)], cenv)
             for conj in f:
                 b = box
                 for var, lo, hi in conj:
                     b = b.meet(var, lo, hi)
                 if not b.empty():
-                    run(list(s.orelse) + rest, b, subst, dvars, trace + [(src, False)])
+                    run(list(s.orelse) + rest, b, subst, dvars, trace + [(src, False)], cenv)
             return
         if isinstance(s, ast.Assign) and len(s.targets) == 1 and isinstance(s.targets[0], ast.Name):
             name = s.targets[0].id
             if isinstance(s.value, ast.Name) and s.value.id in subst:
                 ns = dict(subst)
                 ns[name] = subst[s.value.id]
-                return run(rest, box, ns, dvars, trace)
+                return run(rest, box, ns, dvars, trace, cenv)
             ex = parse_expr(s.value, subst)
             if ex is not None and name not in (pmax, pmin):
                 ns = dict(subst)
                 ns[name] = ex
-                return run(rest, box, ns, dvars, trace)
+                return run(rest, box, ns, dvars, trace, cenv)
             d = dtype_name(s.value)
             if d is not None:
                 nd = dict(dvars)
                 nd[name] = d
                 if name in subst:
                     raise Undecided("an input variable is rebound to a dtype")
-                return run(rest, box, subst, nd, trace)
+                return run(rest, box, subst, nd, trace, cenv)
             if isinstance(s.value, ast.Name) and s.value.id in dvars:
                 nd = dict(dvars)
                 nd[name] = dvars[s.value.id]
-                return run(rest, box, subst, nd, trace)
+                return run(rest, box, subst, nd, trace, cenv)
             # name = numpy.dtype(<dtype variable or name>): the wrapped dtype, bound to a result variable
             v = s.value
             if isinstance(v, ast.Call) and isinstance(v.func, ast.Attribute) and v.func.attr == "dtype" and len(v.args) == 1 and not v.keywords:
@@ -338,7 +603,7 @@ def enumerate_paths(fn):
                 if d is not None:
                     nd = dict(dvars)
                     nd[name] = d
-                    return run(rest, box, subst, nd, trace)
+                    return run(rest, box, subst, nd, trace, cenv)
             raise Undecided("assignment not recognised: %s" % norm_src(s))
         if isinstance(s, ast.Return):
             v = s.value
@@ -401,7 +666,8 @@ def analyse(prog, rep, thorough):
     where = fi.fq
     rep.analysed["functions"] = [fi.fq]
     try:
-        leaves, fall, (pmax, pmin) = enumerate_paths(fi.node)
+        mod = prog.modules.get(fi.module)
+        leaves, fall, (pmax, pmin) = enumerate_paths(fi.node, getattr(mod, "tree", None))
     except Undecided as e:
         rep.undecided("R-C19-tree", where, "decision tree", "ladder not in the recognised subset: %s" % e)
         return
@@ -631,6 +897,7 @@ def crosscheck(fn, leaves, rep, where, pmax, pmin):
 
 
 RULES = {
+    "R-C19-stored": "every key of an index has rows (no library operation stores an empty entry: imported from C07 rule b): the dtypes are fitted on the keys, so a key without rows makes the result wider than the values actually stored",
     "R-C19-fresh": "to_array / collapsed / fit_dtype keep no state: the dtype is fitted to the current content at every call (frame analysis shared with C17)",
     "R-C19-callers": "the callers named by the property hand fit_dtype bounds that cover every value they store: dense output (to_array) and collapsed pass a minimum for category values, collapsed sizes its output from all codes it can write, and the INDX writer sizes the coordinate word from max(coordinates, common) (imported from the C01/C06/C10 analyses)",
     "R-C19-tree": "fit_dtype is a ladder of comparisons with constants (decision tree extracted from the AST)",
@@ -673,6 +940,21 @@ def main(tier):
             k17 += 1
     c17.analyse_root(prog, prog.func("iindexes", "fit_dtype"), "pure", rep, st17, RA="R-C19-fresh", RB="R-C19-fresh", extra=False)
     rep.floor("R-C19-fresh", 3, k17 + 1)
+    # R-C19-stored: "no wider than the values stored" - the dtype is fitted on the KEYS of the index (plus the common
+    # value), so a key whose row list is empty (a category that occurs nowhere) widens the result: no library operation
+    # stores an empty entry (R-C07-b of the C07 analysis)
+    import c07
+    sub7 = core.Report("C07", level="other", rules=c07.RULES, tier=tier)
+    st7 = {"sites": 0}
+    for fi7 in [f for n7, f in ii.methods.items() if n7 not in ("__init__",)] + [prog.func("iindexes", "column_stack")]:
+        c07.analyse_root(prog, fi7, sub7, st7)
+    k7 = 0
+    for o in sub7.obls:
+        if o.rule == "R-C07-b":
+            k7 += 1
+            rep.add("R-C19-stored", o.where, "[%s] %s" % (o.rule, o.construct), o.status, o.detail, True,
+                    o.witness if o.status != "VIOLATED" else {"inputs": "codes 3..200 with a caller-supplied counts table that lists the unused code -1 (count 0): to_array() returns int16 although uint8 holds every stored value"})
+    rep.floor("R-C19-stored", 10, k7)
     return rep.finish()
 
 
